@@ -9,7 +9,7 @@ C06 (next-pre <tspecs> <now> <startup> <suntab> <cronnext> <utcoff>)            
 C06 (chain <tspecs> <startup> <n> <horizon> <su> <sd> <suntab> <cronnext> <utcoff>)
                                                                    → [startup] t1 t2 … [shutdown]: the runs of a trigger loop
                                                                      started at `startup` and removed at `horizon`
-C06 (dst legacy|new <tspecs> <startup> <r0> <n> <rEnd> <zreal> <znaive> <cronlists>)
+C06 (dst legacy|new|new-pre <tspecs> <startup> <r0> <n> <rEnd> <zreal> <znaive> <cronlists>)
                                                                    → t@w@r …  runs of the wait loop on real time: trigger_time, wall
                                                                      clock and real time of each run (real time ≤ rEnd)
                                                                      zreal/znaive = ((threshold offset) …) ascending: offset of the wall
@@ -132,7 +132,7 @@ def handle (x : Sexp) : String :=
             | some row => (row.2.find? (fun x => t < x)).getD (t + 1)
             | none => t + 1
           utcOff := stepLookup znT }
-      let runs := dstLoop (if sub == "legacy" then WFlags.legacy else WFlags.new) TFlags.current P (ss.map (·.1)) st ⟨stepLookup zrT⟩ k r
+      let runs := dstLoop (if sub == "legacy" then WFlags.legacy else if sub == "new-pre" then WFlags.newPreFix else WFlags.new) TFlags.current P (ss.map (·.1)) st ⟨stepLookup zrT⟩ k r
       " ".intercalate ((runs.filter (fun x => x.2.2 ≤ re)).map (fun x => s!"{x.1}@{x.2.1}@{x.2.2}"))
     | _, _, _, _, _, _, _, _ => "err parse"
   | .list [.atom "off", o] =>
